@@ -320,6 +320,20 @@ def fit_lsq(prog, rep):
             continue
         k = expected[kind]
         ok = len(terms) == 1 and (algebra.same(terms[0], xk(k)) or algebra.same(terms[0], ("bin", "/", xk(k), S(xk(k)))))
+        if not ok and wname:
+            # the value may be assembled AFTER the branch ladder (powers chosen per kind, normalised once): read the
+            # alternatives of the final value with their guards instead of the defining statements
+            from vstat.terms import guarded_alts, degrade
+            gb = builder(prog, fn, guarded=True)
+            cands = set()
+            for lits, t_ in guarded_alts(gb.name(wname, at, {})):
+                if any(_eval_w(l, kind) is False for l in lits):
+                    continue
+                cands.add(degrade(t_))
+            if len(cands) == 1:
+                t1 = next(iter(cands))
+                ok = algebra.same(t1, xk(k)) or algebra.same(t1, ("bin", "/", xk(k), S(xk(k))))
+                terms = [t1]
         rep.check(ok, "C13.weights", inst, fn.where(), f"'{kind}' -> x^{k} (over its sum)",
                   f"weights='{kind}' must be x**{k} (optionally over its own sum); found {[show(tm)[:100] for tm in terms]}")
     # alignment of the triple
